@@ -95,7 +95,7 @@ def directory_case(draw):
             seq.append(k)
     distractors = draw(st.lists(st.sampled_from(["foreign", "absent", "solvent", "system-file", "copy-gro",
                                                  "copy-itp", "missing-coords", "same-basename-gro", "same-basename-itp",
-                                                 "shared-end-gro"]),
+                                                 "shared-end-gro", "lookalike"]),
                                 min_size=0, max_size=5, unique=True))
     shared_only = []
     if draw(st.integers(0, 3)) == 0:
@@ -214,6 +214,18 @@ def build_directory(case, rename_end=False):
                 p = os.path.join(sub, "%s_AA.itp" % nm)
                 write_itp(p, case["species"][case["dup_of"]]["end"])
                 candidates[nm]["top_AA"].append(p)
+            listing.append(p)
+        elif dname == "lookalike":
+            # a topology of another molecule type with the residue signature (name, atom count) of a real species but
+            # other atom names, in a file that sorts before the genuine start topology: it cannot be placed in the
+            # system and must not stop the genuine one from being found
+            k = case["dup_of"]
+            st_ = case["species"][k]["start"]
+            fake = dict(st_, name="LOOK%d" % k,
+                        residues=[[rn, ri, ["Z%d" % (i + 1) for i in range(len(names))]] for rn, ri, names in st_["residues"]])
+            gen_cg = triples["SP%d" % k][0]
+            p = gen_cg[:-len("_CG.itp")] + "_CG-draft.itp"
+            write_itp(p, fake)
             listing.append(p)
         elif dname == "shared-end-gro":
             # one coordinate file holding one end-resolution molecule of every species: a valid candidate for each of them
